@@ -155,7 +155,8 @@ fn needs_quotes(arg: &str, first_arg_no_output: bool) -> bool {
     false
 }
 
-/// Renders one argument with the documented syntax. `quoted` is honoured when quoting is optional.
+/// Renders one argument with the documented syntax. `quoted` is honoured when quoting is optional;
+/// `raw_tab_in_quotes`: write a tab as the character itself (quoted or not) instead of the \\t escape.
 pub fn render_arg(arg: &str, want_quotes: bool, first_arg_no_output: bool, raw_tab_in_quotes: bool) -> (String, bool) {
     let quoted = want_quotes || needs_quotes(arg, first_arg_no_output);
     let mut s = String::new();
@@ -169,7 +170,9 @@ pub fn render_arg(arg: &str, want_quotes: bool, first_arg_no_output: bool, raw_t
             '\n' => s.push_str("\\n"),
             '\r' => s.push_str("\\r"),
             '\t' => {
-                if quoted && raw_tab_in_quotes {
+                // a raw tab is an ordinary character: only the space separates (unquoted, it is never the first or
+                // last character of the argument - needs_quotes - so it cannot be taken for line-end whitespace)
+                if raw_tab_in_quotes {
                     s.push('\t')
                 } else {
                     s.push_str("\\t")
